@@ -1062,6 +1062,18 @@ def describe(prog, body, x, depth=0, seen=None):
             m = re.match(r"^(?:const )?(-?\d+)_(?:[iu](?:8|16|32|64|128|size))$", x.get("repr") or "")
             if m:
                 return ("lit", int(m.group(1)))
+            m = re.match(r'^(?:const )?"((?:[^"\\]|\\.)*)"$', x.get("repr") or "", re.S)
+            if m and x.get("ty") in ("&str", "&'static str"):
+                # a string constant printed by rustc (the pattern of a `match` on a &str): undo the Debug escapes
+                body_ = m.group(1)
+                if "\\" not in body_:
+                    return ("lit", body_)
+                try:
+                    body_ = re.sub(r"\\u\{([0-9a-fA-F]+)\}", lambda mm: chr(int(mm.group(1), 16)), body_)
+                    body_ = body_.replace('\\"', '"').replace("\\'", "'").replace("\\n", "\n").replace("\\r", "\r").replace("\\t", "\t").replace("\\0", "\0").replace("\\\\", "\\")
+                    return ("lit", body_)
+                except Exception:
+                    pass
             return ("constrepr", x.get("repr"))
         if k in ("copy", "move"):
             pl = x["pl"]
@@ -1352,6 +1364,43 @@ def _expand_flag(prog, body, fl, val, out, depth, _seen=None):
     out.append(pseudo)
 
 
+def _variant_sources(body, l, depth=0, seen=None):
+    """[(block, variant name | None)] — where the enum value in local l can have been built (through plain moves); None = unknown."""
+    seen = seen or set()
+    if depth > 8 or l in seen or l <= body.argc:
+        return [(None, None)]
+    seen = seen | {l}
+    out = []
+    ds = [d for d in body.defs().get(l, []) if not (d[2] == "assign" and d[3]["pl"]["p"])]
+    if not ds:
+        return [(None, None)]
+    for d in ds:
+        if d[2] == "assign":
+            rv = d[3]["rv"]
+            if rv["k"] == "agg" and rv.get("agg") == "adt" and rv.get("variant"):
+                out.append((d[0], rv["variant"]))
+            elif rv["k"] == "use" and op_local(rv["o"]) is not None and not rv["o"]["pl"]["p"]:
+                out.extend(_variant_sources(body, op_local(rv["o"]), depth + 1, seen))
+            else:
+                out.append((d[0], None))
+        elif d[2] == "call" and (d[3].get("callee") or "").endswith("FromResidual::from_residual"):
+            ty = body.local_ty(l) or ""
+            out.append((d[0], "Err" if ty.startswith("std::result::Result") else ("None" if ty.startswith("std::option::Option") else None)))
+        else:
+            out.append((d[0], None))
+    return out
+
+
+def _variant_def_block(body, l, label):
+    """Block of the only place that can have given local l the variant `label`, when every place its value can come from (through plain
+    moves) builds a known variant; None otherwise."""
+    src = _variant_sources(body, l)
+    if len(src) < 2 or any(v is None for _, v in src):
+        return None
+    hits = [blk for blk, v in src if v == label]
+    return hits[0] if len(hits) == 1 else None
+
+
 def guards_dominating(prog, body, b, _depth=0):
     """Every (switch_block, label, discr_description, info) whose labelled edge dominates block b.
     A test of a constant-assigned boolean (`let found = ..early returns true / false..`, an inlined predicate helper) also
@@ -1380,6 +1429,14 @@ def guards_dominating(prog, body, b, _depth=0):
                     if lab in ("true", "false") and _depth < 3:
                         fl, neg = _flag_root(body, op_local(t["discr"]))
                         _expand_flag(prog, body, fl, (lab == "true") != neg, out, _depth)
+                    elif info["kind"] == "enum" and info.get("src") is not None and not info["src"]["p"] and _depth < 3:
+                        # an Option / Result local built in several arms (the result of an inlined helper): the edge for one variant holds
+                        # only where the one assignment that builds that variant ran
+                        vb = _variant_def_block(body, info["src"]["l"], lab)
+                        if vb is not None and vb != s:
+                            for g in guards_dominating(prog, body, vb, _depth + 1):
+                                if g not in out:
+                                    out.append(g)
     return out
 
 
